@@ -177,6 +177,36 @@ Theorem C01_variable_denotes_feature : forall vars opc i c par kids,
 Proof. exact den_variable. Qed.
 Print Assumptions C01_variable_denotes_feature.
 
+(* --- penalty() and teams --------------------------------------------------- *)
+(* interpreter<i_mep>::penalty_locus only moves ip_ and reads the argument
+   indices of the gene it is pointed at; runs interleaved with penalty() calls
+   still return the denotation *)
+Theorem C01_penalty_reads_gene_only : forall g pk l st1 st2,
+  fst (penalty_locus g pk l st1) = fst (penalty_locus g pk l st2) /\
+  snd (penalty_locus g pk l st1) = set_ip st1 l.
+Proof. intros. split; [apply penalty_depends_on_gene_only|apply penalty_locus_state]. Qed.
+Print Assumptions C01_penalty_reads_gene_only.
+
+Theorem C01_comparison_penalty : forall g pk l st ge a b c d,
+  gene_at g l = Some ge -> pk (s_opcode (g_sym ge)) = PenCmp4 -> g_args ge = [a; b; c; d] ->
+  fst (penalty_locus g pk l st) = Some (b2z (Nat.eqb a b) + b2z (Nat.eqb c d))%Z.
+Proof. exact penalty_cmp4. Qed.
+Print Assumptions C01_comparison_penalty.
+
+(* comparison_function_penalty on a gene with fewer than four arguments reads
+   an argument that does not exist (integer::ifz on the pinned tree) *)
+Theorem C01_comparison_penalty_needs_four_arguments : forall g pk l st ge,
+  gene_at g l = Some ge -> pk (s_opcode (g_sym ge)) = PenCmp4 -> length (g_args ge) < 4 ->
+  fst (penalty_locus g pk l st) = None.
+Proof. exact penalty_cmp4_short. Qed.
+Print Assumptions C01_comparison_penalty_needs_four_arguments.
+
+Theorem C01_run_after_penalty_is_denotation : forall g, wf_genome g -> forall pk l st ex,
+  exists t, active_tree g = Some t /\
+    fst (run_ex true g ex (snd (penalty_locus g pk l st))) = res_of_outcome (den (nth_error ex) t).
+Proof. exact run_after_penalty. Qed.
+Print Assumptions C01_run_after_penalty_is_denotation.
+
 (* --- non-vacuity ---------------------------------------------------------- *)
 (* a 3-category, DAG-shaped genome of shipped primitives (FIFL on category 0
    selecting between two category-1 sub-expressions that share a gene, a
